@@ -47,6 +47,9 @@ def max_flow[Node](
     sink: Node,
 ) -> Result:
     """Find maximum flow from source to sink using Ford-Fulkerson (FFA) with BFS."""
+    if source == sink:
+        # there is no source-sink cut to saturate: the search would find the empty path forever
+        raise ValueError("source and sink must be different nodes")
     capacity = defaultdict(lambda: defaultdict(int))
     for u in graph:
         for v, cap, *_ in graph[u]:
